@@ -35,13 +35,11 @@ func NewSet() *Set {
 // String returns the string of a set.
 func (s *Set) String() string {
 	codes, space := "[", ""
-	node := s.Head.Forward
-	for node.Forward != nil {
+	for node := s.Head.Forward; node != nil && node.Forward != nil; node = node.Forward {
 		for code := node.Begin; code <= node.End; code++ {
 			codes += space + fmt.Sprintf("%v", code)
 			space = " "
 		}
-		node = node.Forward
 	}
 	return codes + "]"
 }
